@@ -88,6 +88,7 @@ fn main() {
         "C19" => props::c19::run_check(&ctx),
         "C12" => props::c12::run(&ctx),
         "C13" => props::c13::run(&ctx),
+        "C14" => props::c14::run_check(&ctx),
         "C16" => props::c16::run(&ctx),
         "C18" => props::c18::run(&ctx),
         "C20" => props::c20::run_check(&ctx),
